@@ -8,7 +8,7 @@
 //                1-3 waking producers
 // Output per run:  RUN <seed> bits=<b> P=<payload words> mode=<m> ...\n <trace lines> END
 // Every atomic operation on the ticket counters and the slot futex words is a trace line replayed in
-// lock-step by lean/Drivers/C01.lean; `ev call|cbb|cbe|ret|now …` are harness events the model also
+// lock-step by lean/Drivers/C01.lean; `ev call|cbb|cbe|ret|clock …` are harness events the model also
 // checks.  The property ORACLE (multiset, FIFO between ordered operations, callback overlap, torn
 // payload, try-failure justification, timed-pop deadline) is evaluated here on the real code and
 // reported as `ev ORACLE <kind> …`.  Slot payloads are registered with vrt_payload so the
@@ -30,14 +30,13 @@
 #include <vector>
 
 // absl's GetCurrentTimeNanos uses a calibrated cycle counter; route it to the (virtual) clock so the
-// timed wait is deterministic, and make every reading visible to the model.
+// timed wait is deterministic; vrt_trace_clock(1) makes every reading an `ev clock <ns>` trace line.
 namespace absl {
 ABSL_NAMESPACE_BEGIN
 int64_t GetCurrentTimeNanos() {
   struct timespec ts;
   clock_gettime(CLOCK_REALTIME, &ts);
   int64_t ns = (int64_t)ts.tv_sec * 1000000000ll + ts.tv_nsec;
-  if (vrt_tid() >= 0) vrt_event("now %ld", (long)ns);
   return ns;
 }
 ABSL_NAMESPACE_END
@@ -638,6 +637,8 @@ int main(int argc, char** argv) {
   std::string mode = argc > 1 ? argv[1] : "mix";
   uint64_t seed0 = argc > 2 ? strtoull(argv[2], 0, 10) : 1;
   int nruns = argc > 3 ? atoi(argv[3]) : 1;
+  vrt_trace_clock(1);     // `ev clock <ns>` per clock reading, ` to=<ns>` on timed futex waits
+  vrt_payload_sched(1);   // plain accesses to slot payloads are scheduling points
   for (int i = 0; i < nruns; ++i) {
     uint64_t seed = seed0 + i;
     bool two = (seed % 3) == 0;
